@@ -140,10 +140,10 @@ class C04(Cfg):
         "unescape(escape s)=s for every string of Unicode scalars (serde_json escaping as written into _json, read back by the client); "
         "parse(print i)=i for every integer; an admitted parameter is stored and returned as itself; exact characterisation of the strings that survive "
         "being typed as a JSON string literal (no backslash, no C0 control) and of the literals that mean what they spell (only the \\\" escape); "
-        "the equality filter matches the stored value (null parameter excepted) and nothing else; the SQL statement as a token list: for the intended behaviour "
+        "the equality filter matches the stored value (null parameter excepted) and nothing else; the SQL statement as a token list: for the code as it is (since the fixes d527622 and cedb2ae) "
         "no text is written between quotes, every spliced numeral is digits/sign only, and the tokens, ?n numbering and binding order are those of the query's skeleton "
-        "(all literal/default values erased). Counter-examples (decide/simp-checked) for the code as it is: literal escapes not decoded, a String default spliced between quotes "
-        "into the filter SQL, null parameter never matched, a variable taking the slot of a literal with the same text. "
+        "(all literal/default values erased). Counter-examples (decide/simp-checked) for the code as it is: literal escapes not decoded, null parameter never matched; "
+        "regression witnesses for the code before the two fixes: a String default spliced between quotes into the filter SQL, a variable taking the slot of a literal with the same text. "
         "The model is tied to the code on every run: the real MutationParser/QueryParser/DataModel/PreparedQueries/Query::read on SQLite (and GraphDatabaseService::mutate/query/update_data_model for a sample) and the compiled model "
         "run the same op file; compared per value: accept/reject class, the _json text, the raw result text, the decoded value, sibling fields, a digest of all other rows, the rows matched by the equality filter, "
         "and the SQL text of both statements byte for byte. Independent oracle on the implementation: returned value = intended value (JSON meaning of the literal), filter matches exactly the equal rows, "
